@@ -84,7 +84,7 @@ Definition k_calls (c : case15) : list (N * N) := map dec_call (k_callsz c).
 Definition verdict_obs (v : verdict) : vobs :=
   match v with
   | Accept => VAccept
-  | Refuse FGetter => VOther
+  | Refuse FGetter | Refuse FHeight => VOther
   | Refuse (FCandidate e) | Refuse (FNewHead e) | Refuse (FDirect e) => VRefuse (obs_of (Some e))
   | OutOfFuel => VPanic   (* never produced: the fuel given below always suffices (model15_fuel) *)
   end.
@@ -107,7 +107,8 @@ Definition call_eqb (a b : N * N) : bool := (fst a =? fst b) && (snd a =? snd b)
     [replay]: walk the observed requests; the verified head moves to a getter answer
     exactly when that answer passes Verify against the current one; Syncer.Head()
     seen at each request must be the old subjective head or one of the heads verified
-    so far ([seen]); a failed request must be the last one. Returns the final
+    so far ([seen]); a failed request -- an error, or a non-zero answer of another
+    height than asked -- must be the last one. Returns the final
     verified head, the ids of all verified heads, and whether the last request
     failed -- without re-doing the halving arithmetic. *)
 Fixpoint replay (now drift : Z) (tv : hdr -> hdr -> tvres) (get : nat -> N -> option hdr)
@@ -119,6 +120,9 @@ Fixpoint replay (now drift : Z) (tv : hdr -> hdr -> tvres) (get : nat -> N -> op
     else match get i h with
          | None => match r with [] => Some (cur, seen, true) | _ => None end
          | Some c =>
+           if negb (h_nil c) && negb (h_height c =? h)
+           then match r with [] => Some (cur, seen, true) | _ => None end
+           else
            match Verify now drift tv cur c with
            | None => replay now drift tv get (S i) c (h_id c :: seen) r
            | Some _ => replay now drift tv get (S i) cur seen r
@@ -171,8 +175,8 @@ Definition ok_core (now drift : Z) (pol : policy) (subj new : hdr) (g : gspec) (
     (* afterwards the subjective head is the accepted candidate, else still a verified header *)
     && (if is_accept v then hd =? h_id new else existsb (N.eqb hd) seen)
   end &&
-  (* bounded number of requests when the getter answers with the asked heights *)
-  (negb (heights_honest g && (s <=? n) && (n <? two64))
+  (* bounded number of requests, whatever the getter answers *)
+  (negb ((s <=? n) && (n <? two64))
    || (N.of_nat (length calls) <=? bound (n - s))).
 
 Definition ok_obs (now drift : Z) (pol : policy) (subj new : hdr) (g : gspec) (budget : N)
@@ -202,7 +206,7 @@ Definition ok_head (now drift : Z) (pol : policy) (subj new : hdr) (g : gspec) (
     else (* refused: the answer and the subjective head are still verified headers, not the candidate *)
       existsb (N.eqb ret) seen && existsb (N.eqb hd) seen
   end &&
-  (negb (heights_honest g && (s <=? n) && (n <? two64))
+  (negb ((s <=? n) && (n <? two64))
    || (N.of_nat (length calls) <=? bound (n - s))) &&
   (negb (complete_applies now drift pol subj new g budget) || (ret =? h_id new)).
 
@@ -255,6 +259,7 @@ Proof.
   induction f as [|f IH]; intros f' i subj diff Hle Hv; [cbn in Hv; congruence|].
   destruct f' as [|f']; [lia|]. cbn [bifurcate] in Hv |- *.
   destruct (get i _) as [c|]; [|reflexivity].
+  destruct (negb (h_nil c) && _); [reflexivity|].
   destruct (V subj c) as [e|].
   - destruct (ve_soft e); [|reflexivity]. cbn in Hv. rewrite IH; [reflexivity | lia | exact Hv].
   - destruct (V c new); [|reflexivity]. destruct (_ <=? 1); [reflexivity|].
@@ -279,26 +284,28 @@ Proof.
   { intros c x [H|[<-|[]]]; cbn; [rewrite H; apply orb_true_r | rewrite N.eqb_refl; reflexivity]. }
   destruct (get i ch) as [c|] eqn:Hg.
   2:{ intros _ Hs. exists seen. cbn. rewrite Hs, Hg. auto. }
+  destruct (negb (h_nil c) && negb (h_height c =? ch)) eqn:Hchk.
+  { intros _ Hs. exists seen. cbn. rewrite Hs, Hg, Hchk. auto. }
   destruct (V subj c) as [e|] eqn:Hv.
   - destruct (ve_soft e).
     + cbn [bcons b_verdict b_calls b_promoted replay]. intros Hoof Hs.
-      rewrite Hs, Hg, Hv. cbn [negb]. apply IH; assumption.
-    + intros _ Hs. exists seen. cbn. rewrite Hs, Hg, Hv. auto.
+      rewrite Hs, Hg, Hchk, Hv. cbn [negb]. apply IH; assumption.
+    + intros _ Hs. exists seen. cbn. rewrite Hs, Hg, Hchk, Hv. auto.
   - assert (Hc : existsb (N.eqb (h_id c)) (h_id c :: seen) = true)
       by (cbn; rewrite N.eqb_refl; reflexivity).
     destruct (V c new) as [e|] eqn:Hn.
     + destruct (_ <=? 1).
       * intros _ Hs. exists (h_id c :: seen). cbn [b_calls b_promoted b_verdict replay last].
-        rewrite Hs, Hg, Hv. cbn [negb is_getter_fail]. auto.
+        rewrite Hs, Hg, Hchk, Hv. cbn [negb is_getter_fail]. auto.
       * cbn [bcons b_verdict b_calls b_promoted replay]. intros Hoof Hs.
-        rewrite Hs, Hg, Hv. cbn [negb]. rewrite last_cons_default.
+        rewrite Hs, Hg, Hchk, Hv. cbn [negb]. rewrite last_cons_default.
         destruct (IH (S i) c (h_id c :: seen) (sub64 (h_height new) (h_height c)) Hoof Hc) as (seen' & Hr & Hall).
         exists seen'. split; [exact Hr|]. intros x [H|[<-|H]].
         -- apply Hall. left. cbn. rewrite H. apply orb_true_r.
         -- apply Hall. left. exact Hc.
         -- apply Hall. right. exact H.
     + intros _ Hs. exists (h_id c :: seen). cbn [b_calls b_promoted b_verdict replay last].
-      rewrite Hs, Hg, Hv. cbn [negb is_getter_fail]. auto.
+      rewrite Hs, Hg, Hchk, Hv. cbn [negb is_getter_fail]. auto.
 Qed.
 
 End tie.
@@ -346,6 +353,7 @@ Proof.
   induction fuel as [|f IH]; intros i subj diff Hext; [reflexivity|].
   cbn [bifurcate]. rewrite <- (Hext i) by lia.
   destruct (get i _) as [c|]; [|reflexivity].
+  destruct (negb (h_nil c) && _); [reflexivity|].
   destruct (Verify now drift tv subj c) as [e|].
   - destruct (ve_soft e); [|reflexivity]. rewrite IH; [reflexivity|]. intros j h Hj. apply Hext. lia.
   - destruct (Verify now drift tv c new); [|reflexivity]. destruct (_ <=? 1); [reflexivity|].
@@ -458,7 +466,7 @@ Lemma run_facts c :
   (exists seen', replay now drift tv get 0 subj [h_id subj] (b_calls r0) =
                    Some (last (b_promoted r0) subj, seen', is_getter_fail (b_verdict r0)) /\
                  forall x, x = h_id subj \/ In x (map h_id (b_promoted r0)) -> existsb (N.eqb x) seen' = true) /\
-  (heights_honest (k_get c) && (h_height subj <=? h_height new) && (h_height new <? two64) = true ->
+  ((h_height subj <=? h_height new) && (h_height new <? two64) = true ->
    N.of_nat (length (b_calls r0)) <= bound (h_height new - h_height subj)) /\
   (complete_applies now drift (k_pol c) subj new (k_get c) (k_budget c) = true -> b_verdict r0 = Accept).
 Proof.
@@ -479,14 +487,13 @@ Proof.
     destruct (ve_soft e); [|intros _; exists [h_id subj]; auto]. intros Hv.
     destruct (bif_replay now drift tv get new (S B) 0%nat subj [h_id subj] _ Hv Hsubj) as (seen' & Hr & Hall).
     exists seen'. split; [exact Hr|]. intros x [->|H]; apply Hall; [left; exact Hsubj | right; exact H].
-  - intros Hc. apply andb_prop in Hc as [Hc Hn]. apply andb_prop in Hc as [Hh Hs].
+  - intros Hc. apply andb_prop in Hc as [Hs Hn].
     apply N.ltb_lt in Hn. apply N.leb_le in Hs.
     set (F := Nat.max (S B) (fuel_bound (h_height new - h_height subj))).
     assert (Hsame : syncer_verify now drift tv get F subj new = r0).
     { revert Hoof0. unfold r0, syncer_verify. destruct (Verify now drift tv subj new) as [e|]; [|reflexivity].
       destruct (ve_soft e); [|reflexivity]. intros Hv. apply bif_fuel_mono; [unfold F; lia | exact Hv]. }
     destruct (sverify_terminates now drift tv get new F subj Hn) as [_ Hb].
-    + intros i h x _. apply getter_heights. exact Hh.
     + unfold F. lia.
     + rewrite Hsame in Hb. exact Hb.
   - intros Hc. pose proof (model15_complete c Hc) as Ha. unfold run15 in Ha.
@@ -514,7 +521,7 @@ Proof.
   destruct (incoming_unfold now drift tv get new (S B) subj) as (Hv & Hc & Hp). fold r0 in Hv, Hc, Hp.
   set (r := incoming now drift tv get (S B) subj new) in *.
   assert (Hsubjseen : existsb (N.eqb (h_id subj)) seen' = true) by (apply Hall; left; reflexivity).
-  assert (Hbc : negb (heights_honest (k_get c) && (h_height subj <=? h_height new) && (h_height new <? two64))
+  assert (Hbc : negb ((h_height subj <=? h_height new) && (h_height new <? two64))
                 || (N.of_nat (length (b_calls r)) <=? bound (h_height new - h_height subj)) = true).
   { rewrite Hc. apply bound_clause. exact Hbound. }
   unfold ok_all, ok_store, ok_head, ok_obs, ok_core.
